@@ -3,8 +3,9 @@
 Same case stream and oracle as C01 (full_output=True).  Clauses:
  (a) honesty    err <= K*error_estimate + kappa*eps*(S_n(h_f) + |x| S_{n+1})     [k_est >= 2]
  (b) calibration of the estimate on the pooled well-posed cases (coverage, q99)    [finalize]
- (c) record consistency (exact): f_value == f(x), estimate >= 0 and finite, final_step within
-     the generated steps, one entry per result entry, index addresses an existing estimate
+ (c) record consistency (exact): f_value == f(x), estimate >= 0 and finite, final_step is one of
+     the steps generated for its entry, one entry per result entry (and, for the real-step methods,
+     entry j of the record equals the record of the scalar call at x[j]), index in range
 """
 import math
 
@@ -29,6 +30,16 @@ COVERAGE_MIN = 0.70
 Q50_MAX = 0.5
 Q90_MAX = 5.0
 POOL_MIN = 150
+
+
+@st.composite
+def ew_case(draw):
+    """Arrays with >= 2 axes, real-step methods, correctly rounded test functions (C08's templates)."""
+    from nverif.props import c08
+    c = draw(c08.c08_case().filter(lambda c: len(c['shape']) >= 2 and c['method'] in dc.REAL_STEP
+                                   and c['n'] >= 1))
+    c['family'] = 'ew'
+    return c
 
 
 @st.composite
@@ -62,7 +73,8 @@ class C02(Prop):
 
     def strategy(self, tier):
         from nverif.props import c02mv
-        return st.one_of(c02_case(), c02_case(), c02_case(), c02mv.mv_case())
+        return st.one_of(c02_case(), c02_case(), c02_case(), c02_case(), c02mv.mv_case(), c02mv.mv_case(),
+                         ew_case())
 
     # ------------------------------------------------------------------------------
     def _record_consistency(self, case, ev, ctx):
@@ -105,7 +117,60 @@ class C02(Prop):
             raise Violation('record-index', 'index %r does not address one of the %d estimates'
                             % (idx.tolist(), n_est_max))
 
+    def _check_entrywise(self, case, ctx):
+        """Family 'ew': entry j of error_estimate / final_step belongs to entry j of the result.
+        Test functions use only + - * / sqrt (correctly rounded, as in C08), so for the real-step
+        methods the record of element j of an array call must be bit-identical to the record of the
+        call on the length-1 array [x_j]."""
+        import numdifftools as nd
+        import warnings
+        from nverif.props import c08
+        shape = tuple(case['shape'])
+        x = np.array(case['xs'], dtype=float).reshape(shape)
+        g = c08.base_function(case['template'], case['coefs'], case['d'])
+        kw = dict(method=case['method'], n=case['n'], order=case['order'], full_output=True)
+        if case['step'] == 'num_extrap':
+            kw['num_extrap'] = case['num_extrap']
+        elif case['step'] == 'scalar':
+            kw['step'] = 10.0 ** case['log10_step']
+        with warnings.catch_warnings():
+            warnings.simplefilter('ignore')
+            with ctx.lib('no-exception', 'Derivative on an array of shape %s' % (shape,)):
+                with np.errstate(all='ignore'):
+                    val, info = nd.Derivative(g, **kw)(x)
+            est = np.asarray(info.error_estimate)
+            fst = np.asarray(info.final_step)
+            for name, arr in (('error_estimate', est), ('final_step', fst)):
+                if arr.size != x.size:
+                    raise Violation('record-shape', '%s has %d entries for %d result entries' % (name, arr.size, x.size))
+                try:
+                    np.broadcast_shapes(arr.shape, np.shape(val))
+                except ValueError:
+                    raise Violation('record-shape', '%s shape %s not broadcast-compatible with result %s'
+                                    % (name, arr.shape, np.shape(val)))
+            val, est, fst = np.ravel(val), np.ravel(est), np.ravel(fst)
+            same = lambda a, b: bool(a == b or (a != a and b != b))      # noqa: E731
+            for jj in sorted({0, x.size // 3, (2 * x.size) // 3, x.size - 1}):
+                with ctx.lib('no-exception', 'Derivative on a length-1 array'):
+                    with np.errstate(all='ignore'):
+                        v1, i1 = nd.Derivative(g, **kw)(np.array([np.ravel(x)[jj]]))
+                v1, e1, s1 = (float(np.ravel(v1)[0]), float(np.ravel(i1.error_estimate)[0]),
+                              float(np.ravel(i1.final_step)[0]))
+                if not same(float(val[jj]), v1):
+                    ctx.count('ew: value differs from the single-element call (C08\'s subject)')
+                    continue
+                if not (same(float(est[jj]), e1) and same(float(fst[jj]), s1)):
+                    raise Violation('record-entrywise', 'entry %d of an array of shape %s: error_estimate %r / '
+                                    'final_step %r, but the call on that element alone gives %r / %r (same '
+                                    'value %r)' % (jj, shape, float(est[jj]), float(fst[jj]), e1, s1, v1),
+                                    method=case['method'])
+        ctx.count('family=entrywise|%s|ndim=%d' % (case['method'], len(shape)))
+        if len(shape) >= 2 and min(shape) >= 2 and len(set(case['xs'])) > 1:
+            ctx.nontriv(dict(ew=case['xs'], shape=case['shape'], m=case['method'], n=case['n']))
+
     def check(self, case, ctx):
+        if case.get('family') == 'ew':
+            return self._check_entrywise(case, ctx)
         if case.get('family') == 'mv':
             from nverif.props import c02mv
             ctx.count('family=multivariate (%s)' % case.get('cls'))
@@ -174,6 +239,9 @@ class C02(Prop):
         if case.get('family') == 'mv':
             from nverif.props import c02mv
             return c02mv.mv_finding_key(case, v)
+        if case.get('family') == 'ew':
+            return {'clause': v.clause, 'family': 'ew', 'method': case['method'], 'n': case['n'],
+                    'exception': v.details.get('exception')}
         big = max(exprs.max_abs_argument(case['tree'], float(xv), ('tanh',)) for xv in case['x'])
         tiny = min(exprs.min_abs_pow_base(case['tree'], float(xv)) for xv in case['x'])
         inv = min(exprs.min_abs_argument(case['tree'], float(xv), ('arcsinh', 'arctanh', 'arctan', 'arcsin'))
